@@ -127,7 +127,8 @@ def load_known():
 
 
 def matches_known(entry, prop, scn, viol):
-    if entry.get("status") != "open" or entry["property"] != prop.pid or entry["oracle"] != viol["oracle"]:
+    oracles_ = entry["oracle"] if isinstance(entry["oracle"], list) else [entry["oracle"]]
+    if entry.get("status") != "open" or entry["property"] != prop.pid or viol["oracle"] not in oracles_:
         return False
     facts = prop.facts(scn, viol)
     for k, want in entry.get("when", {}).items():
@@ -173,7 +174,7 @@ def main_check(pid, tier, seed, jobs=16, repo="/repo", nseeds=None, wall_cap=Non
         path = os.path.join(VERIF, e["replay"])
         scn = json.load(open(path))
         r = run_scenario_safe(prop, scn)
-        hit = [v for v in r["violations"] if v["oracle"] == e["oracle"]]
+        hit = [v for v in r["violations"] if v["oracle"] == e["oracle"] or (isinstance(e["oracle"], list) and v["oracle"] in e["oracle"])]
         if e["status"] == "open":
             if hit:
                 known_reproduced.append(e["id"])
